@@ -4,7 +4,7 @@ check of its property, undo; prints one line per change and a summary.  /repo mu
 import json, os, subprocess, sys
 
 def sh(cmd, **kw):
-    return subprocess.run(cmd, shell=True, capture_output=True, text=True, **kw)
+    return subprocess.run(cmd, shell=True, capture_output=True, text=True, errors="replace", **kw)
 
 def main():
     root = "/verif/seeded"
